@@ -220,15 +220,19 @@ _LOOPNAME = re.compile(r'LOOP_\d+')
 
 def strict_parse(text, allow_no_group=False):
     """returns (ast, info) or raises Bad(reason)"""
-    lines = text.split("\n")
+    # blank lines, trailing blanks and ' comments are legal PlantUML and carry
+    # no structure
+    lines = [ln.rstrip() for ln in text.split("\n")]
+    lines = [ln for ln in lines
+             if ln.strip() and not ln.strip().startswith("'")]
     if len(lines) < 6:
         raise Bad("frame: too short")
-    if lines[0] != "@startuml" or lines[-1] != "@enduml":
+    if lines[0].strip() != "@startuml" or lines[-1].strip() != "@enduml":
         raise Bad("frame: @startuml/@enduml")
-    m = re.fullmatch(r'\s*partition "(.*)" \{', lines[1])
+    m = re.fullmatch(r'\s*partition\s+"(.*)"\s*\{', lines[1])
     if not m:
         raise Bad("frame: partition")
-    g = re.fullmatch(r'\s*group "(.*)"', lines[2])
+    g = re.fullmatch(r'\s*group\s+"(.*)"', lines[2])
     if not g:
         raise Bad("frame: group")
     if m.group(1) != g.group(1):
@@ -236,8 +240,6 @@ def strict_parse(text, allow_no_group=False):
     if lines[-3].strip() != "end group" or lines[-2].strip() != "}":
         raise Bad("frame: tail")
     body = [ln.strip() for ln in lines[3:-3]]
-    if any(ln == "" for ln in body):
-        raise Bad("blank line")
     pos = 0
     info = {"events": [], "name": m.group(1)}
 
